@@ -91,6 +91,9 @@ type BMC struct {
 	Sessions map[uint32]*Session
 	Log      []*Rx
 	Handlers map[uint16]Handler
+	// AcceptRC, if set, is asked whether the random number drawn for RAKP
+	// Message 2 (in s.RAKP.RC) will do; it is redrawn until it does.
+	AcceptRC func(b *BMC, s *Session) bool
 
 	// OpenOverride, if set, decides the Open Session Response.
 	OpenOverride func(b *BMC, rx *Rx, req *ref.OpenReq, def *ref.OpenRsp) *ref.OpenRsp
@@ -310,6 +313,11 @@ func (b *BMC) rakp1(rx *Rx) {
 	s.Kuid = ref.PadKey(pw)
 	s.RAKP = ref.RAKP{Auth: s.Suite.Auth, SIDM: s.ConsoleID, SIDC: s.ID, RM: r1.RM, GUID: b.GUID, Role: r1.Role, User: r1.User}
 	copy(s.RAKP.RC[:], b.Rand.Bytes(16))
+	// the BMC's random number is the BMC's to choose: a harness can have it
+	// redrawn until the codes derived from it have a particular shape
+	for i := 0; b.AcceptRC != nil && i < 400000 && !b.AcceptRC(b, s); i++ {
+		copy(s.RAKP.RC[:], b.Rand.Bytes(16))
+	}
 	s.State = "rakp1"
 	r2 := &ref.RAKP2{Tag: r1.Tag, SIDM: s.ConsoleID, RC: s.RAKP.RC, GUID: b.GUID, Code: s.RAKP.RAKP2Code(s.Kuid)}
 	rx.Replies = append(rx.Replies, b.plainReply(ref.PTRAKP2, r2.Bytes()))
